@@ -1,6 +1,6 @@
 import Indi.Properties.C11
 import Indi.Properties.C11b
-import Indi.Properties.Decisions
+import Indi.Properties.Dec.Buffer
 #print axioms Indi.Buf.C11_bounded
 #print axioms Indi.Buf.C11_genuine
 #print axioms Indi.Buf.C11_retained_suffix
@@ -9,3 +9,4 @@ import Indi.Properties.Decisions
 #print axioms Indi.Buf.C11_resync
 #print axioms Indi.Decisions.bufLoopGuard_agrees
 #print axioms Indi.Decisions.bufCleanupDue_agrees
+#print axioms Indi.Decisions.bufSkip_agrees
